@@ -1,3 +1,68 @@
-(* C01 -- placeholder while the tie is brought up; theorems follow. *)
-From Y Require Import Prelude Node Loader LoadRun.
-Theorem C01_placeholder : True. Proof. exact I. Qed.
+(* C01 -- a loaded value always conforms to the declared type.
+   Statement only; proofs: Proofs/WellTagged.v (recogniser soundness), WellTagged2.v (process establishes
+   well_tagged), Conform.v / Conform2.v (construction of a well-tagged node conforms).
+   The model (Model/Recognize.v, Loader.v) is tied to yatiml by harness/props/c01.py. *)
+From Coq Require Import NArith ZArith List Bool String.
+Import ListNotations.
+From Y Require Import Prelude Node Tables NodeOps OpsRun Types Recognize Loader Hooks Spec
+     Conform Conform2 WellTagged WellTagged2 WfDecide.
+Open Scope N_scope.
+
+(* For every registry (classes with ARBITRARY recognisers, savorize functions and constructors that may
+   raise), every scalar oracle, every declared type and every document -- including the empty stream (None):
+   if load returns a value, the value conforms to the declared type all the way down. *)
+Theorem C01_load_conforms : forall o reg doc T v,
+  wf_registry reg -> oracle_wf o -> load o reg doc T = Ok v -> conforms reg v T.
+Proof. intros o reg doc T v Hr Ho E. eapply load_conforms; eassumption. Qed.
+Print Assumptions C01_load_conforms.
+
+(* the two halves, as used by other properties *)
+Theorem C01_process_well_tagged : forall o reg fuel n T n', wf_registry reg ->
+  process o reg fuel n T = Ok n' -> well_tagged reg n' T.
+Proof. intros. eapply process_well_tagged; eassumption. Qed.
+Theorem C01_construct_conforms : forall o reg fuel n T v, wf_registry reg -> oracle_wf o ->
+  well_tagged reg n T -> construct o reg fuel n = Ok v -> conforms reg v T.
+Proof. intros. eapply construct_conforms; eassumption. Qed.
+(* what recognition returns is always admitted by the declared type and fits the node *)
+Theorem C01_recognize_sound : forall o reg fuel n T res, wf_registry reg ->
+  recognize o reg fuel n T = Ok res -> Forall (sound reg n T) (fst res).
+Proof. intros o reg fuel n T res Hr E. destruct (recognize_sound o reg Hr fuel) as [H _]. eapply H; exact E. Qed.
+Print Assumptions C01_recognize_sound.
+
+(* the hypotheses are decidable on concrete data *)
+Theorem C01_wf_decidable : forall reg o, wf_registryb reg = true -> oracle_wfb o = true -> wf_registry reg /\ oracle_wf o.
+Proof. intros. split; [apply wf_registryb_sound | apply oracle_wfb_sound]; assumption. Qed.
+
+(* non-vacuity: a hierarchy Base <- Mid <- Leaf with a permissive recogniser on Mid and a savorize on Base that
+   renames an attribute; a document tagged !!python/object loads to a concrete Leaf whose nested item is a Mid
+   (recognised by the permissive recogniser, its attribute renamed by Base's savorize), extras arriving as plain data *)
+Local Open Scope string_scope.
+Definition S_ (s : string) := Scalar tag_str (u s) nomark.
+Definition I_ (s : string) := Scalar tag_int (u s) nomark.
+Definition ex_specs : list cls_spec :=
+  [ {| s_name := u "Base"; s_bases := []; s_ancestors := [u "Base"]; s_abstract := false;
+       s_shape := ShObj [{| p_name := u "a"; p_ty := TInt; p_required := true |}] false;
+       s_recognize := None; s_savorize := Some [SOp (OpRename (u "alias") (u "a"))]; s_sweeten := None;
+       s_init := InitOk; s_str := StrOk |};
+    {| s_name := u "Mid"; s_bases := [u "Base"]; s_ancestors := [u "Mid"; u "Base"]; s_abstract := false;
+       s_shape := ShObj [{| p_name := u "a"; p_ty := TInt; p_required := true |};
+                         {| p_name := u "x"; p_ty := TUnion [TStr; TNone]; p_required := false |}] false;
+       s_recognize := Some []; s_savorize := None; s_sweeten := None; s_init := InitOk; s_str := StrOk |};
+    {| s_name := u "Leaf"; s_bases := [u "Mid"]; s_ancestors := [u "Leaf"; u "Mid"; u "Base"]; s_abstract := false;
+       s_shape := ShObj [{| p_name := u "a"; p_ty := TInt; p_required := true |};
+                         {| p_name := u "sub"; p_ty := TList 1 (TClass (u "Base")); p_required := true |}] true;
+       s_recognize := None; s_savorize := None; s_sweeten := None; s_init := InitOk; s_str := StrOk |} ].
+Definition ex_oracle : oracle := [((tag_int, u "1"), Ok (VInt 1)); ((tag_int, u "2"), Ok (VInt 2))].
+Definition ex_doc : node :=
+  Map (u "tag:yaml.org,2002:python/object:os.system")
+    [(S_ "a", I_ "1");
+     (S_ "sub", Seq tag_seq [Map tag_map [(S_ "alias", I_ "2"); (S_ "x", S_ "hi")] nomark] nomark);
+     (S_ "more", Map (u "!Leaf") [(S_ "k", I_ "2")] nomark)] nomark.
+Example C01_ex_hyps : wf_registry (interp_reg ex_oracle ex_specs) /\ oracle_wf ex_oracle.
+Proof. apply C01_wf_decidable; vm_compute; reflexivity. Qed.
+Example C01_ex_load :
+  load ex_oracle (interp_reg ex_oracle ex_specs) (Some ex_doc) (TClass (u "Base"))
+  = Ok (VObj (u "Leaf") [(u "a", VInt 1);
+                        (u "sub", VList [VObj (u "Mid") [(u "a", VInt 2); (u "x", VStr (u "hi"))]]);
+                        (u "_yatiml_extra", VDict [(VStr (u "more"), VDict [(VStr (u "k"), VInt 2)])])]).
+Proof. vm_compute. reflexivity. Qed.
